@@ -115,14 +115,23 @@ func (s *c09w) pump() string {
 				s.reqs = append(s.reqs, r)
 			}
 		case *packet.Pubrel:
+			known := false
 			for _, r := range s.rec {
 				if r.id == p.ID && r.qos == 2 {
+					known = true
 					r.gotRel = true
 					if !s.inReqs(r) {
 						s.retrans = append(s.retrans, fmt.Sprintf("PUBREL(%d)", p.ID))
 						s.reqs = append(s.reqs, r)
 					}
 				}
+			}
+			if !known {
+				// a PUBREL for a handshake the broker considers finished: the client did not get (or could not
+				// process) the PUBCOMP and retransmits; the broker answers again
+				s.retrans = append(s.retrans, fmt.Sprintf("PUBREL(%d)", p.ID))
+				r := &request{kind: "publish", id: p.ID, qos: 2, tag: fmt.Sprintf("(released %d)", p.ID), gotRel: true, recd: true}
+				s.reqs = append(s.reqs, r)
 			}
 		case *packet.Subscribe:
 			s.reqs = append(s.reqs, &request{kind: "subscribe", id: p.ID})
